@@ -113,6 +113,8 @@ def batch_specs(draw, st, n_max=9, allow_txn=False):
             spec["lat"] = True
         spec["ts"] = draw(st.lists(st.integers(0, 10 ** 12), min_size=1, max_size=3))
         specs.append(spec)
+    if specs:
+        specs[-1].pop("gone", None)     # the cleaner never removes the batch holding the log's last offset
     return specs
 
 
